@@ -31,6 +31,11 @@
 (* seen = the seed and the times of all timed events processed through ANY  *)
 (* handle of the object; origin[h] = the handle whose New began h's lineage.*)
 (*                                                                         *)
+(* time(): the code tests `delta.num_milliseconds() >= 0`, which truncates   *)
+(* towards zero - a delta in (-1 ms, 0) is still added; in whole units (the  *)
+(* specification's, and the millisecond of the recorded traces) that is the  *)
+(* `Max(0, ..)` below.                                                       *)
+(*                                                                         *)
 (* Nondeterminism: none in the clock itself - given the wall-clock readings *)
 (* the clock is a function of its inputs.  What is open is the environment: *)
 (* which handle does what, when the wall clock moves and by how much (the   *)
@@ -49,8 +54,9 @@ VARIABLES obj,      \* handle -> object id, 0 = handle not in use
           seen,     \* ghost: object id -> set of times
           origin,   \* ghost: handle -> handle whose New began its lineage (0 = not in use)
           nobj,     \* number of objects created
-          wall
-vars == <<obj, clk, seen, origin, nobj, wall>>
+          wall,
+          last      \* observation only: the step just taken (hidden from the state fingerprint by VIEW)
+vars == <<obj, clk, seen, origin, nobj, wall, last>>
 
 NoTime == -1
 Max(a, b) == IF a >= b THEN a ELSE b
@@ -120,6 +126,9 @@ Processed(c, t, now) ==
   ELSE IF t >= c.ex THEN [ex |-> t, live |-> now, gen |-> c.gen + 1]      \* `>=`: adopt, restart the elapsed part
   ELSE c                                                                 \* older: logged (debug/warn/error), ignored
 
+\* how an event whose table entry is `t` relates to the time object c holds
+Relation(c, t) == IF t = NoTime THEN "untimed" ELSE IF t > c.ex THEN "newer" ELSE IF t = c.ex THEN "equal" ELSE "late"
+
 \* EngineClock::time of object c read at wall reading `now`: the delta is added only if it is not negative
 TimeOf(c, now) == c.ex + Max(0, now - c.live)
 
@@ -130,12 +139,18 @@ Time(h)  == TimeOf(clk[obj[h]], wall)
 (* Actions.  The *At forms take the wall reading as a parameter (the trace  *)
 (* specification supplies measured readings); the plain forms read `wall`.  *)
 (***************************************************************************)
+NoEvent == Ev("-", 0)
+\* a step: a = the action, h = the handle it goes through, g = the new handle of Clone, ev = the event of Process,
+\* n = the seed of New / the d of WallAdvance, WallBack
+Step(a, h, g, ev, n) == [a |-> a, h |-> h, g |-> g, ev |-> ev, n |-> n]
+
 Init == /\ obj = [h \in HANDLES |-> 0]
         /\ clk = <<>>
         /\ seen = <<>>
         /\ origin = [h \in HANDLES |-> 0]
         /\ nobj = 0
         /\ wall = 0
+        /\ last = Step("Init", 0, 0, NoEvent, 0)
 
 NewAt(h, seed, now) ==
   /\ ~InUse(h)
@@ -158,11 +173,13 @@ ProcessAt(h, ev, now) ==
        /\ seen' = [seen EXCEPT ![o] = IF t = NoTime THEN @ ELSE @ \cup {t}]
   /\ UNCHANGED <<obj, origin, nobj>>
 
-New(h, seed)   == NewAt(h, seed, wall) /\ UNCHANGED wall
-Clone(h, g)    == CloneAt(h, g) /\ UNCHANGED wall
-Process(h, ev) == ProcessAt(h, ev, wall) /\ UNCHANGED wall
-WallAdvance(d) == wall + d <= MAXWALL /\ wall' = wall + d /\ UNCHANGED <<obj, clk, seen, origin, nobj>>
-WallBack(d)    == wall - d >= 0 /\ wall' = wall - d /\ UNCHANGED <<obj, clk, seen, origin, nobj>>
+New(h, seed)   == NewAt(h, seed, wall) /\ UNCHANGED wall /\ last' = Step("New", h, 0, NoEvent, seed)
+Clone(h, g)    == CloneAt(h, g) /\ UNCHANGED wall /\ last' = Step("Clone", h, g, NoEvent, 0)
+Process(h, ev) == ProcessAt(h, ev, wall) /\ UNCHANGED wall /\ last' = Step("Process", h, 0, ev, 0)
+WallAdvance(d) == /\ wall + d <= MAXWALL /\ wall' = wall + d /\ UNCHANGED <<obj, clk, seen, origin, nobj>>
+                  /\ last' = Step("WallAdvance", 0, 0, NoEvent, d)
+WallBack(d)    == /\ wall - d >= 0 /\ wall' = wall - d /\ UNCHANGED <<obj, clk, seen, origin, nobj>>
+                  /\ last' = Step("WallBack", 0, 0, NoEvent, d)
 
 DoNew     == \E h \in HANDLES, s \in TIMES : New(h, s)
 DoClone   == \E h, g \in HANDLES : Clone(h, g)
@@ -197,28 +214,31 @@ MonotoneA == /\ nobj' >= nobj
              /\ \A o \in Objects : clk'[o].ex >= clk[o].ex /\ clk'[o].gen >= clk[o].gen
 Monotone == [][MonotoneA]_vars
 
+\* (the step properties read the step just taken from last')
+Proc == last'.a = "Process"
+PH == last'.h                      \* the handle the step went through
+PT == EventTime(last'.ev)          \* the table's answer for the processed event
+TimeNext(h) == TimeOf(clk'[obj'[h]], wall')      \* the reading of handle h after the step
+
 \* an event older than the time held changes nothing (no band of lateness does)
-LateIgnoredA == \A h \in Used, ev \in Events :
-                  (Process(h, ev) /\ EventTime(ev) # NoTime /\ EventTime(ev) < clk[obj[h]].ex) => clk' = clk
+LateIgnoredA == (Proc /\ PT # NoTime /\ PT < clk[obj[PH]].ex) => clk' = clk
 LateIgnored == [][LateIgnoredA]_vars
 
 \* an event without a timestamp changes nothing
-UntimedIgnoredA == \A h \in Used, ev \in Events : (Process(h, ev) /\ EventTime(ev) = NoTime) => clk' = clk /\ seen' = seen
+UntimedIgnoredA == (Proc /\ PT = NoTime) => (clk' = clk /\ seen' = seen)
 UntimedIgnored == [][UntimedIgnoredA]_vars
 
 \* an event newer than the time held is adopted and the elapsed part restarts: the reading IS the event's time
-NewerAdoptedA == \A h \in Used, ev \in Events :
-                   (Process(h, ev) /\ EventTime(ev) > clk[obj[h]].ex) => Time(h)' = EventTime(ev)
+NewerAdoptedA == (Proc /\ PT > clk[obj[PH]].ex) => TimeNext(PH) = PT
 NewerAdopted == [][NewerAdoptedA]_vars
 
 \* `>=`: an event whose time EQUALS the time held restarts the elapsed part (the reading falls back to that time)
 EqualTimeRestartsElapsedA ==
-  \A h \in Used, ev \in Events :
-    (Process(h, ev) /\ EventTime(ev) = clk[obj[h]].ex) =>
-        /\ clk'[obj[h]].ex = clk[obj[h]].ex
-        /\ clk'[obj[h]].live = wall
-        /\ clk'[obj[h]].gen = clk[obj[h]].gen + 1
-        /\ Time(h)' = EventTime(ev)
+  (Proc /\ PT = clk[obj[PH]].ex) =>
+      /\ clk'[obj[PH]].ex = clk[obj[PH]].ex
+      /\ clk'[obj[PH]].live = wall
+      /\ clk'[obj[PH]].gen = clk[obj[PH]].gen + 1
+      /\ TimeNext(PH) = PT
 EqualTimeRestartsElapsed == [][EqualTimeRestartsElapsedA]_vars
 
 \* two handles refer to one object iff they descend from the same New (one was cloned - directly or through
@@ -226,13 +246,12 @@ EqualTimeRestartsElapsed == [][EqualTimeRestartsElapsedA]_vars
 SharedIffCloned == \A h, g \in Used : (obj[h] = obj[g]) <=> (origin[h] = origin[g])
 \* ... observably: processing through h moves exactly the readings of h's lineage, all of them alike
 ObservedSharingA ==
-  \A h \in Used, ev \in Events : Process(h, ev) =>
-      \A g \in Used : IF origin[g] = origin[h] THEN Time(g)' = Time(h)'
-                      ELSE Time(g)' = Time(g)
+  Proc => \A g \in Used : IF origin[g] = origin[PH] THEN TimeNext(g) = TimeNext(PH)
+                          ELSE TimeNext(g) = Time(g)
 ObservedSharing == [][ObservedSharingA]_vars
-\* a clone starts as an exact alias, a new clock touches no other
-CloneNewA == /\ \A h, g \in HANDLES : Clone(h, g) => (Time(g)' = Time(h) /\ \A k \in Used : Time(k)' = Time(k))
-             /\ \A h \in HANDLES, s \in TIMES : New(h, s) => (Time(h)' = s /\ \A k \in Used : Time(k)' = Time(k))
+\* a clone starts as an exact alias, a new clock reads its seed; neither touches any other reading
+CloneNewA == /\ last'.a = "Clone" => (TimeNext(last'.g) = Time(last'.h) /\ \A k \in Used : TimeNext(k) = Time(k))
+             /\ last'.a = "New" => (TimeNext(last'.h) = last'.n /\ \A k \in Used : TimeNext(k) = Time(k))
 CloneNew == [][CloneNewA]_vars
 
 \* model-checking aids: gen is a ghost counter (unbounded), hidden from the state fingerprint
